@@ -49,6 +49,9 @@ structure KA where
   dormant : Bool
   /-- `len(t.activeStreams)` -/
   streams : Nat
+  /-- streams registered in `activeStreams` (NewStream's `checkForStreamQuota`, caller goroutine) whose
+      `initStream` callback loopy has not run yet (their HEADERS are still queued in the controlBuf). -/
+  pendingInit : Nat := 0
   closed : Bool
   /-- ghost: the instant since which keepalive has been applicable (last 0→1 stream transition;
       always 0 with PermitWithoutStream, which makes it applicable from the start). -/
@@ -64,10 +67,13 @@ deriving Repr, DecidableEq
     preface is read at the same virtual instant. -/
 def KA.init (c : Cfg) : KA :=
   { now := 0, lastRead := 0, prevNano := 0, outstanding := false, timeoutLeft := 0, timerAt := c.time,
-    dormant := false, streams := 0, closed := false, appSince := 0, lateWake := false, pingAt := 0 }
+    dormant := false, streams := 0, pendingInit := 0, closed := false, appSince := 0, lateWake := false, pingAt := 0 }
 
 /-- keepalive is applicable: a stream is open or PermitWithoutStream. -/
 def KA.applicable (c : Cfg) (s : KA) : Bool := c.permit || decide (0 < s.streams)
+
+/-- The writer has caught up: every registered stream's HEADERS (and `initStream`) went through loopy. -/
+def KA.caughtUp (s : KA) : Bool := decide (s.pendingInit = 0)
 
 /-- The tail of the `case <-timer.C` body after the dormancy block:
     `if !outstandingPing { controlBuf.put(p); timeoutLeft = Timeout; outstandingPing = true }`
@@ -104,8 +110,10 @@ inductive Ev
   | delay (d : Nat)   -- time passes
   | fire              -- the timer expires (urgent: time cannot pass `timerAt`)
   | read              -- the reader goroutine got a frame: lastRead = now
-  | openS             -- NewStream registered a stream (wakes a dormant loop)
+  | openS             -- NewStream registered a stream and loopy ran its initStream (= regS; initS)
   | doneS             -- a stream left activeStreams
+  | regS              -- NewStream's checkForStreamQuota: the stream is in activeStreams, HEADERS queued
+  | initS             -- loopy dequeues a HEADERS item: `initStream` → `if t.kpDormant { Signal() }`
 deriving Repr, DecidableEq
 
 /-- Which events may happen in a state (timed-automaton guard / invariant). -/
@@ -114,7 +122,9 @@ def Ev.ok (s : KA) : Ev → Bool
   | .fire => !s.closed && !s.dormant && decide (s.now = s.timerAt)
   | .read => true
   | .openS => true
-  | .doneS => decide (0 < s.streams)
+  | .doneS => decide (s.pendingInit < s.streams)   -- only streams whose HEADERS went out are closed in this model
+  | .regS => true
+  | .initS => decide (0 < s.pendingInit)
 
 /-- One event; `fireF` is the timer-expiry body (`fire` for the client loop, `serverFire` for the server loop). -/
 def stepG (fireF : Cfg → KA → KA × List Out) (c : Cfg) (s : KA) : Ev → KA × List Out
@@ -126,9 +136,20 @@ def stepG (fireF : Cfg → KA → KA × List Out) (c : Cfg) (s : KA) : Ev → KA
     let s1 := { s with streams := s.streams + 1, appSince := if s.streams = 0 && !c.permit then s.now else s.appSince }
     if s.dormant then
       -- Wait() returns: kpDormant = false; outstandingPing was cleared before parking, so a ping is sent
-      sendAndSleep c { s1 with lateWake := decide (s.lastRead > s.prevNano) }
+      sendAndSleep c { s1 with lateWake := decide (s.lastRead > s.prevNano), appSince := if !c.permit then s.now else s.appSince }
     else (s1, [])
   | .doneS => if s.closed then (s, []) else ({ s with streams := s.streams - 1 }, [])
+  | .regS =>
+    if s.closed then (s, []) else
+    ({ s with streams := s.streams + 1, pendingInit := s.pendingInit + 1,
+              appSince := if s.streams = 0 && !c.permit then s.now else s.appSince }, [])
+  | .initS =>
+    if s.closed then (s, []) else
+    let s1 := { s with pendingInit := s.pendingInit - 1 }
+    if s.dormant then
+      -- every initStream signals a dormant loop, however many streams are already registered
+      sendAndSleep c { s1 with lateWake := decide (s.lastRead > s.prevNano), appSince := if !c.permit then s.now else s.appSince }
+    else (s1, [])
 
 /-- The client automaton. -/
 def step (c : Cfg) (s : KA) (e : Ev) : KA × List Out := stepG fire c s e
